@@ -11,6 +11,7 @@ import NdcubeModel.Model.Coords
 import NdcubeModel.Model.ExtraCoords
 import NdcubeModel.Model.Crop
 import NdcubeModel.Model.SeqCrop
+import NdcubeModel.Model.SeqCoords
 
 /-!
 # Line-protocol driver
@@ -665,6 +666,34 @@ def opSeqCrop (j : Json) : R Json := do
   let items ← field j "items" >>= asList (asList asItem)
   pure <| Json.mkObj [("item", listJson itemJson (seqCropItem ndim shapes items))]
 
+/-! ## ops `seq_coords` / `seq_axis` (C17) -/
+
+def opSeqCoords (j : Json) : R Json := do
+  let lens ← field j "lens" >>= asList asNat
+  let axes ← field j "axes" >>= asList (asList asNat)
+  let ca ← field j "ca" >>= asNat
+  let coords : Nat → CoordArr (Nat × List Nat) := fun c =>
+    { axes := axes.getD c [], val := fun ix => (c, ix) }
+  -- each entry evaluated on the symbolic remaining index [1000, 1001, ...] shows where it reads from
+  let ents := commonAxisCoords lens coords ca
+  let probe (c : Nat) : List Nat := (List.range ((axes.getD c []).length - 1)).map (· + 1000)
+  pure <| Json.mkObj [("count", natJson ents.length),
+    ("entries", Json.arr ((List.range ents.length).map fun k =>
+      match locate lens k, ents[k]? with
+      | some (s, _), some f =>
+        let r := f (probe s)
+        Json.mkObj [("cube", natJson r.1), ("index", listJson natJson r.2)]
+      | _, _ => Json.null).toArray)]
+
+def opSeqAxis (j : Json) : R Json := do
+  let gcs ← field j "gcs" >>= asList (asList fun p => do
+    let a ← asArr p
+    match a with
+    | [n, v] => do pure ((← asStr n), (← asNat v))
+    | _ => .error "expected [name, id]")
+  pure <| Json.mkObj [("coords", listJson (fun (p : String × List (Option Nat)) =>
+    Json.arr #[.str p.1, listJson (optJson natJson) p.2]) (seqAxisCoords gcs))]
+
 def dispatch (j : Json) : R Json := do
   let op ← field j "op" >>= asStr
   match op with
@@ -687,6 +716,8 @@ def dispatch (j : Json) : R Json := do
   | "crop" => opCrop j
   | "crop_item" => opCropItem j
   | "seq_crop" => opSeqCrop j
+  | "seq_coords" => opSeqCoords j
+  | "seq_axis" => opSeqAxis j
   | _ => .error s!"unknown op {op}"
 
 def handleLine (line : String) : String :=
